@@ -293,7 +293,8 @@ class Purity(object):
     def _arg_for(self, callee, call, pname):
         a = callee.args
         names = [x.arg for x in a.posonlyargs + a.args]
-        is_method = getattr(callee, '_cls', None) is not None
+        is_method = getattr(callee, '_cls', None) is not None and not any(
+            isinstance(d, ast.Name) and d.id == 'staticmethod' for d in callee.decorator_list)
         if is_method and names:
             names = names[1:]
         for k in call.keywords:
